@@ -1,4 +1,5 @@
 """Translator: nixio/file.py  ->  NixModel/Generated/FormatConst.lean
+            nixio/hdf5/*.py ->  NixModel/Generated/H5Handlers.lean (the `except` clauses that never raise)
 
 Parses the Python source with `ast` (never imports it) and renders
  * FILE_FORMAT, HDF_FF_VERSION (a triple of ints), the three FileMode letters,
@@ -18,7 +19,7 @@ Anything it does not recognise raises ExtractError (a broken tie, handled by the
 import ast
 import os
 
-from .leanfmt import ExtractError, lean_chars, lean_int, lean_list
+from .leanfmt import ExtractError, lean_chars, lean_int, lean_list, lean_str
 
 ACC = {"ACC_RDONLY": ".rdonly", "ACC_RDWR": ".rdwr", "ACC_TRUNC": ".trunc"}
 CMP = {ast.Eq: ".eq", ast.NotEq: ".ne", ast.Lt: ".lt", ast.LtE: ".le", ast.Gt: ".gt", ast.GtE: ".ge"}
@@ -466,6 +467,54 @@ def _extract_create_header(cls):
     return steps
 
 
+# ---- exception handlers of the layer that talks to libhdf5 --------------------------------------
+
+WRITE_METHODS = {"create_group", "create_dataset", "require_group", "require_dataset", "resize", "move", "copy",
+                 "create", "modify", "__setitem__", "__delitem__", "set_attr", "write_data", "write", "delete",
+                 "delete_all", "create_link", "pop", "clear", "update", "set_by_pos", "open_group", "open_data_set",
+                 "create_data_set"}
+
+
+def _try_writes(body):
+    """does a statement list (of a `try`) write to the file: del x[...], x[...] = v, or a call of a writing method"""
+    for st in body:
+        for n in ast.walk(st):
+            if isinstance(n, ast.Delete) and any(isinstance(t, (ast.Subscript, ast.Attribute)) for t in n.targets):
+                return True
+            if isinstance(n, (ast.Assign, ast.AugAssign)):
+                tg = n.targets if isinstance(n, ast.Assign) else [n.target]
+                if any(isinstance(t, ast.Subscript) for t in tg):
+                    return True
+            if isinstance(n, ast.Call) and isinstance(n.func, ast.Attribute) and n.func.attr in WRITE_METHODS:
+                return True
+    return False
+
+
+def _extract_handlers(repo):
+    """every `except` clause in nixio/hdf5/*.py whose body never raises: (module, function, classes caught, does the
+    guarded block write to the file)"""
+    out = []
+    d = os.path.join(repo, "nixio", "hdf5")
+    if not os.path.isdir(d):
+        raise ExtractError("nixio/hdf5 not found")
+    for fname in sorted(os.listdir(d)):
+        if not fname.endswith(".py"):
+            continue
+        tree = ast.parse(open(os.path.join(d, fname), encoding="utf-8").read())
+        for fn in ast.walk(tree):
+            if not isinstance(fn, (ast.FunctionDef, ast.AsyncFunctionDef)):
+                continue
+            for t in ast.walk(fn):
+                if not isinstance(t, ast.Try):
+                    continue
+                for h in t.handlers:
+                    if any(isinstance(x, ast.Raise) for st in h.body for x in ast.walk(st)):
+                        continue
+                    typ = ast.unparse(h.type) if h.type is not None else "<bare>"
+                    out.append(("hdf5/" + fname, fn.name, typ, _try_writes(t.body)))
+    return sorted(set(out))
+
+
 def extract(repo):
     path = os.path.join(repo, "nixio", "file.py")
     src = open(path, encoding="utf-8").read()
@@ -703,4 +752,14 @@ def extract(repo):
     L.append("")
     L.append("end Nix.Gen.Format")
     L.append("")
-    return {"NixModel/Generated/FormatConst.lean": "\n".join(L)}
+    H = ["/- GENERATED by harness/extract/fileconst.py from nixio/hdf5/*.py — do not edit. -/",
+         "namespace Nix.Gen.H5Handlers", "",
+         "/-- every `except` clause of the layer that talks to libhdf5 (nixio/hdf5/*.py) whose body never raises:",
+         "(module, function, exception classes caught, does the guarded block write to the file: `del x[…]`,",
+         "`x[…] = v`, or a call of a creating / writing / deleting method) -/",
+         "def swallowing : List (String × String × String × Bool) := " + lean_list(
+             "(%s, %s, %s, %s)" % (lean_str(m), lean_str(f), lean_str(t), "true" if w else "false")
+             for m, f, t, w in _extract_handlers(repo)),
+         "", "end Nix.Gen.H5Handlers", ""]
+    return {"NixModel/Generated/FormatConst.lean": "\n".join(L),
+            "NixModel/Generated/H5Handlers.lean": "\n".join(H)}
